@@ -245,7 +245,8 @@ def check_writer_roundtrip(ctx, index):
             # a string the workbook (UTF-8 encoded XML) cannot hold
             table[position][-1] = "a\udcffb"
         elif limit_case.startswith("cell"):
-            table[position][-1] = "x" * int(limit_case[5:])
+            # (characters, not bytes: every second time the cell is made of letters that take several bytes in UTF-8)
+            table[position][-1] = ("x" if (index // 50) % 2 == 0 else "ä€"[index % 2]) * int(limit_case[5:])
         else:
             table[position] = ["c"] * int(limit_case[4:])
         if position == len(table) - 1:
